@@ -254,7 +254,7 @@ func (c *LocalReusableWorkflowCache) FindMetadata(spec string) (*ReusableWorkflo
 			return m, nil
 		}
 		// The OS error contains the file path as is. Keep the message in one line
-		msg := strings.ReplaceAll(err.Error(), "\n", " ")
+		msg := oneLine(err.Error())
 		return nil, fmt.Errorf("could not read reusable workflow file for %q: %s", spec, msg)
 	}
 
@@ -263,7 +263,7 @@ func (c *LocalReusableWorkflowCache) FindMetadata(spec string) (*ReusableWorkflo
 		if m, cached := c.writeCache(spec, nil); cached { // Remember the workflow file was invalid
 			return m, nil
 		}
-		msg := strings.ReplaceAll(err.Error(), "\n", " ")
+		msg := oneLine(err.Error())
 		return nil, fmt.Errorf("error while parsing reusable workflow %q: %s", spec, msg)
 	}
 
